@@ -467,6 +467,8 @@ def q7_head_of_queue(ctx, rep):
         cb = ctx.prog.callee_body(s)
         if cb is None or (cb.j.get("impl_adt") or "") != A.receiver_adt["path"]:
             continue
+        if not ctx.reach_has_site(ctx.sync_reach([cb]), lambda x_: x_.ck in CB_RECV):
+            continue  # `len()` / `is_empty()` of the wrapper: takes nothing out of the queue (Q2 counts the dequeue sites)
         n += 1
         rep.note_fn(cb.path)
         rt = I.expand(I.ret_term(cb))
